@@ -7,7 +7,7 @@ use crate::oracle::http::split_lenient;
 use crate::request::Request;
 use serde_json::{json, Value};
 
-pub const ORIGINS: &[&str] = &["https://foo.example", "https://bar.example", "http://a", "https://foo.example.evil"];
+pub const ORIGINS: &[&str] = &["https://foo.example", "https://bar.example", "http://a", "https://foo.example.evil", "https://Mixed.Example"];
 pub const SWITCHES: &[Option<&str>] = &[Some("true"), Some("false"), None, Some("yes")];
 pub const CREDENTIALS: &[&str] = &["true", "false", ""];
 pub const LISTS: &[(&str, &str, &str)] = &[("", "", ""), ("POST", "content-type", "x-exposed"), ("GET,POST,PUT", "content-type,x-custom", "content-type,x-exposed")];
@@ -98,8 +98,14 @@ pub fn origin_variants(cfg: &Config) -> Vec<(String, Option<String>)> {
             v.push((format!("interior-substring{}", tag), Some(o[3..o.len() - 2].to_string())));
         }
         v.push((format!("upper-cased{}", tag), Some(o.to_ascii_uppercase())));
+        v.push((format!("lower-cased{}", tag), Some(o.to_ascii_lowercase())));
         v.push((format!("trailing-slash{}", tag), Some(format!("{}/", o))));
         v.push((format!("extended{}", tag), Some(format!("{}.evil", o))));
+    }
+    // two Origin header lines (\u{1} separates them): a configured origin and an unconfigured one, both orders
+    if let Some(c) = cfg.origins.first() {
+        v.push(("two-origin-lines:configured-then-unconfigured".into(), Some(format!("{}\u{1}https://evil.example", c))));
+        v.push(("two-origin-lines:unconfigured-then-configured".into(), Some(format!("https://evil.example\u{1}{}", c))));
     }
     if cfg.origins.len() >= 2 {
         v.push(("two-configured-joined-by-the-separator".into(), Some(format!("{}{}{}", cfg.origins[0], cfg.sep, cfg.origins[1]))));
@@ -122,7 +128,9 @@ pub fn origin_variants(cfg: &Config) -> Vec<(String, Option<String>)> {
 fn request_headers(case: &Case) -> Vec<(String, String)> {
     let mut h: Vec<(String, String)> = vec![("Host".into(), "localhost".into())];
     if let Some(o) = &case.origin {
-        h.push(("Origin".into(), o.clone()));
+        for line in o.split('\u{1}') {
+            h.push(("Origin".into(), line.to_string()));
+        }
     }
     if case.preflight == "method" || case.preflight == "both" {
         h.push(("Access-Control-Request-Method".into(), "PUT".into()));
@@ -187,6 +195,18 @@ pub fn check(case: &Case) -> (String, bool, Vec<(String, String)>) {
         return ("no-origin".into(), true, fails);
     }
     let origin = case.origin.clone().unwrap();
+    if origin.contains('\u{1}') {
+        // several Origin lines: whichever line the server goes by, a grant names one of the lines
+        // sent, and with the switch off only a configured one
+        let lines: Vec<&str> = origin.split('\u{1}').collect();
+        if let Some(acao) = get("Access-Control-Allow-Origin") {
+            let ok = lines.contains(&acao) && (cfg.switch.as_deref() != Some("false") || cfg.origins.iter().any(|c| c.trim() == acao));
+            if !ok {
+                fails.push((format!("{}:several-origin-lines:grant-names-an-origin-that-is-not-configured", pre), format!("Origin lines {:?} configured {:?} -> {:?}", lines, cfg.origins, got)));
+            }
+        }
+        return ("several-origin-lines".into(), true, fails);
+    }
     match cfg.switch.as_deref() {
         Some("true") => {
             if get("Access-Control-Allow-Origin") != Some(origin.as_str()) {
